@@ -5,3 +5,4 @@
 #![allow(missing_docs, dead_code, unreachable_pub, clippy::all)]
 
 pub mod pure;
+pub mod vclock;
